@@ -739,10 +739,15 @@ void Importer::clearImports(ModelPtr &model)
     }
 }
 
-UnitsPtr modelsEquivalentUnits(const ModelPtr &model, const UnitsPtr &units)
+UnitsPtr modelsEquivalentUnits(const ModelPtr &model, const UnitsPtr &units, const std::vector<UnitsPtr> &pendingUnits)
 {
     for (size_t i = 0; i < model->unitsCount(); ++i) {
         const UnitsPtr u = model->units(i);
+        // Units whose own dependencies are still being retrieved are not
+        // candidates: what they are defined with must not be mapped onto them.
+        if (std::find(pendingUnits.begin(), pendingUnits.end(), u) != pendingUnits.end()) {
+            continue;
+        }
         if (Units::equivalent(u, units)) {
             return u;
         }
@@ -778,18 +783,18 @@ void updateUnitsNameUsages(const std::string &oldName, const std::string &newNam
     }
 }
 
-StringStringMap transferUnitsRenamingIfRequired(const ModelPtr &sourceModel, const ModelPtr &targetModel, const UnitsPtr &units, const ComponentPtr &component)
+StringStringMap transferUnitsRenamingIfRequired(const ModelPtr &sourceModel, const ModelPtr &targetModel, const UnitsPtr &units, const ComponentPtr &component, const std::vector<UnitsPtr> &pendingUnits = {})
 {
     StringStringMap changedNames;
 
     std::string newName = units->name();
-    UnitsPtr targetUnits = modelsEquivalentUnits(targetModel, units);
+    UnitsPtr targetUnits = modelsEquivalentUnits(targetModel, units, pendingUnits);
     if (targetUnits == nullptr) {
         for (size_t unitIndex = 0; unitIndex < units->unitCount(); ++unitIndex) {
             std::string reference = units->unitAttributeReference(unitIndex);
             if (!reference.empty() && !isStandardUnitName(reference) && sourceModel->hasUnits(reference)) {
                 auto clonedChildUnits = sourceModel->units(reference)->clone();
-                auto changedChildNames = transferUnitsRenamingIfRequired(sourceModel, targetModel, clonedChildUnits, component);
+                auto changedChildNames = transferUnitsRenamingIfRequired(sourceModel, targetModel, clonedChildUnits, component, pendingUnits);
                 auto changedChildName = changedChildNames.find(reference);
                 units->setUnitAttributeReference(unitIndex, (changedChildName != changedChildNames.end()) ? changedChildName->second : clonedChildUnits->name());
             }
@@ -821,8 +826,9 @@ StringStringMap transferUnitsRenamingIfRequired(const ModelPtr &sourceModel, con
 
 void flattenUnitsImports(const ModelPtr &flatModel, const UnitsPtr &units, size_t index, const ComponentPtr &component);
 
-void retrieveUnitsDependencies(const ModelPtr &flatModel, const ModelPtr &model, const UnitsPtr &u, const ComponentPtr &component)
+void retrieveUnitsDependencies(const ModelPtr &flatModel, const ModelPtr &model, const UnitsPtr &u, const ComponentPtr &component, std::vector<UnitsPtr> &pendingUnits)
 {
+    pendingUnits.push_back(u);
     for (size_t unitIndex = 0; unitIndex < u->unitCount(); ++unitIndex) {
         std::string reference = u->unitAttributeReference(unitIndex);
         if (!reference.empty() && !isStandardUnitName(reference) && model->hasUnits(reference)) {
@@ -832,13 +838,14 @@ void retrieveUnitsDependencies(const ModelPtr &flatModel, const ModelPtr &model,
                 flatModel->addUnits(childUnits);
                 flattenUnitsImports(flatModel, childUnits, flatModelUnitsIndex, component);
             } else {
-                auto changedChildNames = transferUnitsRenamingIfRequired(model, flatModel, childUnits, component);
+                auto changedChildNames = transferUnitsRenamingIfRequired(model, flatModel, childUnits, component, pendingUnits);
                 auto changedChildName = changedChildNames.find(reference);
                 u->setUnitAttributeReference(unitIndex, (changedChildName != changedChildNames.end()) ? changedChildName->second : childUnits->name());
-                retrieveUnitsDependencies(flatModel, model, childUnits, component);
+                retrieveUnitsDependencies(flatModel, model, childUnits, component, pendingUnits);
             }
         }
     }
+    pendingUnits.pop_back();
 }
 
 void flattenUnitsImports(const ModelPtr &flatModel, const UnitsPtr &units, size_t index, const ComponentPtr &component)
@@ -848,7 +855,8 @@ void flattenUnitsImports(const ModelPtr &flatModel, const UnitsPtr &units, size_
     auto importedUnits = importingModelCopy->units(units->importReference());
     importedUnits->setName(units->name());
     flatModel->replaceUnits(index, importedUnits);
-    retrieveUnitsDependencies(flatModel, importingModelCopy, importedUnits, component);
+    std::vector<UnitsPtr> pendingUnits;
+    retrieveUnitsDependencies(flatModel, importingModelCopy, importedUnits, component, pendingUnits);
 }
 
 ComponentPtr flattenComponent(const ComponentEntityPtr &parent, ComponentPtr &component, size_t index)
